@@ -76,95 +76,90 @@ theorem startTaskFail_eq {s : TM} {d : TaskDef} (hn : s.tasks d.id = none) :
       by_cases hx : x = d.id
       · simp [upd, hx, hn]
       · simp [upd, hx]
-    simp [startTaskFail, startTask, stopTask, hde, newFork, upd, delFork]
+    simp [startTaskFail, startTask, stopTask, hde, hn, newFork, upd, delFork]
     simpa [upd] using hfun.symm
+
+theorem startTaskFail_executing {s : TM} {d : TaskDef} (h : (s.tasks d.id).isSome = true) : startTaskFail s d = s := by
+  unfold startTaskFail
+  by_cases hd : d.dbrps.isEmpty = true <;> simp [hd, h]
 
 theorem startTaskFail_tasks (s : TM) (d : TaskDef) : (startTaskFail s d).tasks = s.tasks := by
   unfold startTaskFail
-  by_cases h : d.dbrps.isEmpty = true <;> simp [h, newFork, delFork]
+  by_cases h : d.dbrps.isEmpty = true <;> by_cases h2 : (s.tasks d.id).isSome = true <;> simp [h, h2, newFork, delFork]
 
 theorem startTaskFail_log (s : TM) (d : TaskDef) : (startTaskFail s d).log = s.log := by
   unfold startTaskFail
-  by_cases h : d.dbrps.isEmpty = true <;> simp [h, newFork, delFork]
+  by_cases h : d.dbrps.isEmpty = true <;> by_cases h2 : (s.tasks d.id).isSome = true <;> simp [h, h2, newFork, delFork]
 
 theorem startTaskFail_defaultRP (s : TM) (d : TaskDef) : (startTaskFail s d).defaultRP = s.defaultRP := by
   unfold startTaskFail
-  by_cases h : d.dbrps.isEmpty = true <;> simp [h, newFork, delFork]
+  by_cases h : d.dbrps.isEmpty = true <;> by_cases h2 : (s.tasks d.id).isSome = true <;> simp [h, h2, newFork, delFork]
 
-theorem Inv.startTaskFail {s : TM} (hi : Inv s) {d : TaskDef} (hn : s.tasks d.id = none) : Inv (startTaskFail s d) := by
-  rw [startTaskFail_eq hn]; exact (hi.startTask hn).stopTask d.id
+theorem Inv.startTaskFail {s : TM} (hi : Inv s) (d : TaskDef) : Inv (Kap.C02.startTaskFail s d) := by
+  cases hx : s.tasks d.id with
+  | none => rw [startTaskFail_eq hx]; exact (hi.startTask hx).stopTask d.id
+  | some e => rw [startTaskFail_executing (by simp [hx])]; exact hi
 
-theorem not_running {s : TM} {run : List String} (hrun : ∀ id, id ∈ run ↔ (s.tasks id).isSome) {id : String}
-    (h : ¬ id ∈ run) : s.tasks id = none := by
-  cases hx : s.tasks id with
-  | none => rfl
-  | some e => exact absurd ((hrun id).mpr (by simp [hx])) h
+/-- `startTask` keeps the invariant from ANY state (an executing id is refused). -/
+theorem Inv.startTask' {s : TM} (hi : Inv s) (d : TaskDef) : Inv (Kap.C02.startTask s d) := by
+  cases hx : s.tasks d.id with
+  | none => exact hi.startTask hx
+  | some e => rw [startTask_executing (by simp [hx])]; exact hi
 
-/-- **Simulation.** From any state satisfying the invariant, running a well-formed continuation appends to the sink under
-from-node #`i` of task `t` exactly what the history spec prescribes. -/
+theorem Inv.step {s : TM} (hi : Inv s) (op : Op) : Inv (Kap.C02.step s op) := by
+  cases op with
+  | start d => exact hi.startTask' d
+  | startfail d => exact hi.startTaskFail d
+  | stop id => exact hi.stopTask id
+  | delete id => exact hi.stopTask id
+  | write db rp pts =>
+    exact (forkBatch (db := db) (rp := if (rp == "") = true then s.defaultRP else rp) "" 0 pts s hi).1
+
+/-- **Simulation.** From any state satisfying the invariant, running ANY continuation appends to the sink under from-node #`i` of
+task `t` exactly what the history spec prescribes. -/
 theorem sim (drp t : String) (i : Nat) (ops : List Op) :
-    ∀ (s : TM) (run : List String), Inv s → s.defaultRP = drp → (∀ id, id ∈ run ↔ (s.tasks id).isSome) →
-      wfFrom run ops = true →
+    ∀ (s : TM), Inv s → s.defaultRP = drp →
       (ops.foldl step s).delivered t i =
         s.delivered t i ++ ((writeEvents drp t ((s.tasks t).map (·.task)) ops).filter (qualifies i)).map (·.pt.id) := by
   induction ops with
-  | nil => intro s run _ _ _ _; simp [writeEvents]
+  | nil => intro s _ _; simp [writeEvents]
   | cons op rest ih =>
-    intro s run hi hrp hrun hwf
+    intro s hi hrp
     rw [List.foldl_cons]
+    have hi' := hi.step op
     cases op with
     | start d =>
-      simp only [step, stepWith]
+      simp only [step, stepWith] at hi' ⊢
+      rw [ih _ hi' ((startTask_defaultRP s d).trans hrp)]
+      have hdel : (startTask s d).delivered t i = s.delivered t i := by
+        simp [delivered_eq, startTask_log]
+      rw [hdel]
+      congr 3
+      simp only [writeEvents, enabledAfter]
       by_cases hd : d.dbrps = []
-      · have hwf' : wfFrom run rest = true := by simpa [wfFrom, hd] using hwf
-        rw [startTask_nodbrp hd, ih s run hi hrp hrun hwf']
-        simp [writeEvents, enabledAfter, hd]
-      · have hde : d.dbrps.isEmpty = false := by simpa using hd
-        simp only [wfFrom, hde, Bool.false_eq_true, if_false, Bool.and_eq_true, Bool.not_eq_true',
-          List.contains_eq_mem, decide_eq_false_iff_not] at hwf
-        have hn : s.tasks d.id = none := by
-          cases hx : s.tasks d.id with
-          | none => rfl
-          | some e => exact absurd ((hrun d.id).mpr (by simp [hx])) hwf.1
-        have hi' := hi.startTask (d := d) hn
-        have hrun' : ∀ id, id ∈ d.id :: run ↔ ((startTask s d).tasks id).isSome := by
-          intro id
-          rw [startTask_tasks hd]
-          by_cases hid : id = d.id
-          · simp [hid, upd]
-          · simp [hid, upd, hrun id]
-        rw [ih _ _ hi' ((startTask_defaultRP s d).trans hrp) hrun' hwf.2]
-        have hdel : (startTask s d).delivered t i = s.delivered t i := by
-          simp [delivered_eq, startTask_log]
-        rw [hdel]
-        congr 3
-        rw [startTask_tasks hd]
-        simp only [writeEvents, enabledAfter]
-        by_cases hid : d.id = t
-        · subst hid; simp [upd, hd]
-        · have : ¬ t = d.id := fun h => hid h.symm
-          simp [upd, hid, this]
+      · rw [startTask_nodbrp hd]; simp [hd]
+      · cases hx : s.tasks d.id with
+        | some e =>
+          rw [startTask_executing (by simp [hx])]
+          by_cases hid : d.id = t
+          · subst hid; simp [hx]
+          · simp [hid]
+        | none =>
+          rw [startTask_tasks hd hx]
+          by_cases hid : d.id = t
+          · subst hid; simp [upd, hd, hx]
+          · have : ¬ t = d.id := fun h => hid h.symm
+            simp [upd, hid, this]
     | startfail d =>
-      simp only [step, stepWith]
-      simp only [wfFrom, Bool.and_eq_true, Bool.not_eq_true', List.contains_eq_mem, decide_eq_false_iff_not] at hwf
-      have hn := not_running hrun hwf.1
-      have hrun' : ∀ id, id ∈ run ↔ ((startTaskFail s d).tasks id).isSome := by
-        intro id; rw [startTaskFail_tasks]; exact hrun id
-      rw [ih _ _ (hi.startTaskFail hn) ((startTaskFail_defaultRP s d).trans hrp) hrun' hwf.2]
+      simp only [step, stepWith] at hi' ⊢
+      rw [ih _ hi' ((startTaskFail_defaultRP s d).trans hrp)]
       have hdel : (startTaskFail s d).delivered t i = s.delivered t i := by
         simp [delivered_eq, startTaskFail_log]
       rw [hdel, startTaskFail_tasks]
       simp only [writeEvents, enabledAfter]
     | stop id =>
-      simp only [step, stepWith]
-      have hwf' : wfFrom (run.filter (· != id)) rest = true := by simpa [wfFrom] using hwf
-      have hrun' : ∀ id', id' ∈ run.filter (· != id) ↔ ((stopTask s id).tasks id').isSome := by
-        intro id'
-        rw [stopTask_tasks_apply]
-        by_cases hid : id' = id
-        · simp [hid]
-        · simp [hid, hrun id']
-      rw [ih _ _ (hi.stopTask id) ((stopTask_defaultRP s id).trans hrp) hrun' hwf']
+      simp only [step, stepWith] at hi' ⊢
+      rw [ih _ hi' ((stopTask_defaultRP s id).trans hrp)]
       have hdel : (stopTask s id).delivered t i = s.delivered t i := by
         simp [delivered_eq, stopTask_log]
       rw [hdel, stopTask_tasks_apply]
@@ -174,15 +169,8 @@ theorem sim (drp t : String) (i : Nat) (ops : List Op) :
       · have : ¬ t = id := fun h => hid h.symm
         simp [hid, this]
     | delete id =>
-      simp only [step, stepWith]
-      have hwf' : wfFrom (run.filter (· != id)) rest = true := by simpa [wfFrom] using hwf
-      have hrun' : ∀ id', id' ∈ run.filter (· != id) ↔ ((stopTask s id).tasks id').isSome := by
-        intro id'
-        rw [stopTask_tasks_apply]
-        by_cases hid : id' = id
-        · simp [hid]
-        · simp [hid, hrun id']
-      rw [ih _ _ (hi.stopTask id) ((stopTask_defaultRP s id).trans hrp) hrun' hwf']
+      simp only [step, stepWith] at hi' ⊢
+      rw [ih _ hi' ((stopTask_defaultRP s id).trans hrp)]
       have hdel : (stopTask s id).delivered t i = s.delivered t i := by
         simp [delivered_eq, stopTask_log]
       rw [hdel, stopTask_tasks_apply]
@@ -192,13 +180,9 @@ theorem sim (drp t : String) (i : Nat) (ops : List Op) :
       · have : ¬ t = id := fun h => hid h.symm
         simp [hid, this]
     | write db rp pts =>
-      simp only [step, stepWith, writePointsWith]
-      have hwf' : wfFrom run rest = true := by simpa [wfFrom] using hwf
+      simp only [step, stepWith, writePointsWith] at hi' ⊢
       obtain ⟨h1, h2, h3, h4⟩ := forkBatch (db := db) (rp := if (rp == "") = true then s.defaultRP else rp) t i pts s hi
-      have hrun' : ∀ id, id ∈ run ↔
-          ((pts.foldl (fun s_1 r => forkPoint s_1 (mkPoint db (if (rp == "") = true then s.defaultRP else rp) r)) s).tasks id).isSome := by
-        intro id; rw [h2]; exact hrun id
-      rw [ih _ _ h1 (h3.trans hrp) hrun' hwf', h4, h2, List.append_assoc]
+      rw [ih _ h1 (h3.trans hrp), h4, h2, List.append_assoc]
       congr 1
       simp only [writeEvents, List.filter_append, List.map_append]
       congr 1
@@ -215,72 +199,20 @@ theorem sim (drp t : String) (i : Nat) (ops : List Op) :
       intro r _
       rfl
 
-/-- Every state reached by a well-formed history satisfies the table invariant. -/
-theorem inv_fold (ops : List Op) :
-    ∀ (s : TM) (run : List String), Inv s → (∀ id, id ∈ run ↔ (s.tasks id).isSome) → wfFrom run ops = true →
-      Inv (ops.foldl step s) := by
+/-- Every reachable state satisfies the table invariant. -/
+theorem inv_fold (ops : List Op) : ∀ (s : TM), Inv s → Inv (ops.foldl step s) := by
   induction ops with
-  | nil => intro s run hi _ _; exact hi
-  | cons op rest ih =>
-    intro s run hi hrun hwf
-    rw [List.foldl_cons]
-    cases op with
-    | start d =>
-      simp only [step, stepWith]
-      by_cases hd : d.dbrps = []
-      · have hwf' : wfFrom run rest = true := by simpa [wfFrom, hd] using hwf
-        rw [startTask_nodbrp hd]; exact ih s run hi hrun hwf'
-      · have hde : d.dbrps.isEmpty = false := by simpa using hd
-        simp only [wfFrom, hde, Bool.false_eq_true, if_false, Bool.and_eq_true, Bool.not_eq_true',
-          List.contains_eq_mem, decide_eq_false_iff_not] at hwf
-        have hn : s.tasks d.id = none := by
-          cases hx : s.tasks d.id with
-          | none => rfl
-          | some e => exact absurd ((hrun d.id).mpr (by simp [hx])) hwf.1
-        refine ih _ (d.id :: run) (hi.startTask hn) ?_ hwf.2
-        intro id
-        rw [startTask_tasks hd]
-        by_cases hid : id = d.id
-        · simp [hid, upd]
-        · simp [hid, upd, hrun id]
-    | startfail d =>
-      simp only [step, stepWith]
-      simp only [wfFrom, Bool.and_eq_true, Bool.not_eq_true', List.contains_eq_mem, decide_eq_false_iff_not] at hwf
-      refine ih _ run (hi.startTaskFail (not_running hrun hwf.1)) ?_ hwf.2
-      intro id; rw [startTaskFail_tasks]; exact hrun id
-    | stop id =>
-      simp only [step, stepWith]
-      have hwf' : wfFrom (run.filter (· != id)) rest = true := by simpa [wfFrom] using hwf
-      refine ih _ _ (hi.stopTask id) ?_ hwf'
-      intro id'
-      rw [stopTask_tasks_apply]
-      by_cases hid : id' = id
-      · simp [hid]
-      · simp [hid, hrun id']
-    | delete id =>
-      simp only [step, stepWith]
-      have hwf' : wfFrom (run.filter (· != id)) rest = true := by simpa [wfFrom] using hwf
-      refine ih _ _ (hi.stopTask id) ?_ hwf'
-      intro id'
-      rw [stopTask_tasks_apply]
-      by_cases hid : id' = id
-      · simp [hid]
-      · simp [hid, hrun id']
-    | write db rp pts =>
-      simp only [step, stepWith, writePointsWith]
-      have hwf' : wfFrom run rest = true := by simpa [wfFrom] using hwf
-      obtain ⟨h1, h2, _, _⟩ := forkBatch (db := db) (rp := if (rp == "") = true then s.defaultRP else rp) "" 0 pts s hi
-      refine ih _ run h1 ?_ hwf'
-      intro id; rw [h2]; exact hrun id
+  | nil => intro s hi; exact hi
+  | cons op rest ih => intro s hi; exact ih _ (hi.step op)
 
 /-- The model refines the history spec (used by `Kap.Props.C02.route_refines_spec`). -/
-theorem run_delivered_eq_spec (drp : String) (ops : List Op) (hwf : WF ops) (t : String) (i : Nat) :
+theorem run_delivered_eq_spec (drp : String) (ops : List Op) (t : String) (i : Nat) :
     (run drp ops).delivered t i = specDelivered drp t i ops := by
-  have := sim drp t i ops (init drp) [] (Inv.init drp) rfl (by simp [init]) hwf
+  have := sim drp t i ops (init drp) (Inv.init drp) rfl
   simpa [run, specDelivered, init, TM.delivered] using this
 
-theorem run_inv (drp : String) (ops : List Op) (hwf : WF ops) : Inv (run drp ops) :=
-  inv_fold ops (init drp) [] (Inv.init drp) (by simp [init]) hwf
+theorem run_inv (drp : String) (ops : List Op) : Inv (run drp ops) :=
+  inv_fold ops (init drp) (Inv.init drp)
 
 /-! ### facts about the spec alone -/
 
